@@ -8,6 +8,11 @@ import "sort"
 //
 // wantSign: -1 all triangles clockwise, +1 counter-clockwise, 0 = same sign as the region.
 func goCert(r *region, tris []itri, refine bool, wantSign int) string {
+	return goCertW(r, tris, refine, wantSign, false)
+}
+
+// goCertW: weak = zero-area triangles tolerated.
+func goCertW(r *region, tris []itri, refine bool, wantSign int, weak bool) string {
 	all := r.all()
 	for _, t := range tris {
 		for _, v := range t {
@@ -22,6 +27,9 @@ func goCert(r *region, tris []itri, refine bool, wantSign int) string {
 	var sum int64
 	for _, t := range tris {
 		o := orient(all[t[0]], all[t[1]], all[t[2]])
+		if o == 0 && weak {
+			continue
+		}
 		if o == 0 {
 			return "degenerate"
 		}
